@@ -1100,12 +1100,12 @@ func (bi *ByteInterp) call(x *ast.CallExpr, env *symEnv, st *BState) *SV {
 	}
 	full := fn.FullName()
 	// output primitives
-	if recv != nil && fn.Pkg() != nil && (fn.Name() == "Write" || fn.Name() == "WriteString") && isModuleWriter(fn) {
+	if recv != nil && fn.Pkg() != nil && (fn.Name() == "Write" || fn.Name() == "WriteString" || (fn.Name() == "update" && strings.Contains(full, "crc32Writer"))) && isModuleWriter(fn) {
 		sink := recv.Canon() + ".w"
 		if v, ok := st.Heap[sink]; ok {
 			sink = v.Canon()
 		}
-		if strings.HasSuffix(full, "crc32Writer).Write") || strings.HasSuffix(full, "crc32Writer).WriteString") {
+		if strings.Contains(full, "crc32Writer") {
 			sink = recv.Canon()
 		}
 		n := bi.lenOf(args[0])
